@@ -196,7 +196,7 @@ class C11(Check):
         for v in SCHEMA_VARIANTS:
             for sid in SCHEMA_IDS:
                 for handle in ("fresh", "reused"):
-                    for api in ("append_records", "tx_append_data"):
+                    for api in ("append_records", "tx_append_data", "tx_after_valid"):
                         yield {"part": "schema", "variant": v, "sid": sid, "handle": handle, "api": api}
         for v in ("equal", "reordered", "other_type", "nullability", "extra", "missing", "not_parquet"):
             yield {"part": "files", "variant": v}
@@ -215,6 +215,17 @@ class C11(Check):
     def _append(t: Any, api: str, recs: List[Dict[str, Any]], schema: Any = None) -> None:
         if api == "append_records":
             t.append_records(recs, schema=schema)
+        elif api == "tx_after_valid":
+            # same transaction: first an append with the table's own schema, then the variant
+            tx = t.new_transaction().begin()
+            try:
+                good = tables.schema_of(BASE_FIELDS, schema.schema_id if schema is not None else 1)
+                tx.append_data([{"rid": 50, "a": 5, "b": 6, "s": "g", "d": 0.25}], schema=good)
+                tx.append_data(recs, schema=schema)
+                tx.commit()
+            except BaseException:
+                tx.rollback()
+                raise
         else:
             tx = t.new_transaction().begin()
             try:
@@ -403,6 +414,27 @@ class C11(Check):
                 res.count("rejected_state_checked")
                 if after != before:
                     res.violation(f"rejected-append-left-trace:{sigctx}", "append raised but table state changed", wit)
+                    return
+                # "no trace" includes the handle itself: an ordinary append through the SAME handle must
+                # still be exact and leave the table scannable / filterable from every handle
+                plain = {"rid": 77, "a": 7, "b": 8, "s": "p", "d": 7.0}
+                try:
+                    t.append_records([plain])
+                except Exception as e:  # noqa
+                    res.violation(f"append-broken-after-reject:{sigctx}",
+                                  f"ordinary append through the handle that had an append rejected raises {type(e).__name__}: {str(e)[:160]}", wit)
+                    return
+                try:
+                    got = ds.load_table(root).scan()
+                except Exception as e:  # noqa
+                    res.violation(f"scan-broken-after-reject:{sigctx}",
+                                  f"full scan raises after a rejected append followed by an ordinary one: {type(e).__name__}: {str(e)[:200]}", wit)
+                    return
+                new = [r for r in got if r.get("rid") == 77]
+                if len(new) != 1 or reader.canon_row(new[0]) != reader.canon_row(plain):
+                    res.violation(f"value-altered-after-reject:{sigctx}", f"row appended after a rejection comes back as {new!r}, supplied {plain!r}", wit)
+                    return
+                self._probe_filters(root, t, BASE_FIELDS, res, wit, sigctx + ":after-reject")
                 return
             res.count("accepted")
             # accepted: the row must come back exactly as supplied, and the table must keep working
